@@ -187,7 +187,26 @@ def run(F, R, tier):
                 a_ = sym.term(cs[0].args[1])
                 acc = ("call", "did_url_parser::did::DID::" + part, (DUP,))
                 okarg = SR.pure(a_, acc) or (isinstance(a_, tuple) and a_[:2] == ("ctor", "Some") and SR.pure(a_[2], acc))
-                r3.require(okarg, (fn, "segment-arg", part), "set_%s is not given the parsed %s: %s" % (part, part, sym.fmt(a_)))
+                delim = {"query": "?", "fragment": "#"}.get(part)
+                if delim is not None:
+                    # The parser's query()/fragment() exclude the delimiter, and the setters (C10-R2) strip ONE leading delimiter from the value
+                    # they are given and treat an empty value as "clear".  The parsed component is therefore stored verbatim for every input
+                    # — a query that itself begins with '?' (`did:a:b??c`), an empty one (`did:a:b?`) — only when it is handed over *with* its
+                    # delimiter: Some(delim ++ component) when present (an empty component then fails the setter's non-empty test), None when absent.
+                    var = SR.variant(q, acc)
+                    pay = ("payload", acc, "Some", 0)
+                    with_delim = (isinstance(a_, tuple) and a_[:2] == ("ctor", "Some") and isinstance(a_[2], tuple) and a_[2][:1] == ("concat",) and len(a_[2][1]) == 2
+                                  and a_[2][1][0] == ("lit", delim) and a_[2][1][1][:1] == ("arg",) and SR.pure(a_[2][1][1][1], pay))
+                    absent = var == "None" and (a_ == ("ctor", "None") or okarg)
+                    if not (with_delim and var == "Some") and not absent:
+                        if okarg:
+                            r3.fail((fn, "verbatim", part), "from_base_did_url hands the parsed %s to set_%s without its delimiter: the setter drops an empty %s%s, so %s accepted but not reproduced by the string form" % (
+                                part, part, part, " and strips a leading '?' that is part of the query" if part == "query" else "",
+                                "`did:a:b?` (printed `did:a:b`) and `did:a:b??x` (printed `did:a:b?x`) are" if part == "query" else "`did:a:b#` (printed `did:a:b`) is"))
+                        else:
+                            r3.fail((fn, "segment-arg", part), "set_%s is not given the parsed %s: %s" % (part, part, sym.fmt(a_)))
+                else:
+                    r3.require(okarg, (fn, "segment-arg", part), "set_%s is not given the parsed %s: %s" % (part, part, sym.fmt(a_)))
                 rel[part] = cs[0]
             tf = [e for e in evs if re.search(r"try_from$", e.fn or "") and e.args and SR.pure(e.args[0], DUP)]
             if not r3.require(len(tf) == 1 and q.succeeded(tf[0]) is True, (fn, "missing-before-success", "CoreDID::try_from"), "from_base_did_url can succeed without CoreDID::try_from(stripped DID URL) ✓"):
